@@ -66,3 +66,55 @@ package keeper
 //@               ((iskey(types.DEStoreKey, q) && keyarg(types.DEStoreKey, q, 0) == address
 //@                 && deQueue.Tail <= keyarg(types.DEStoreKey, q, 1) && keyarg(types.DEStoreKey, q, 1) < deQueue.Tail + #i)
 //@                ? enc(des[keyarg(types.DEStoreKey, q, 1) - deQueue.Tail]) : old(Store_tss)[q])
+
+// ---- C10 / C03 / C05: end-block handling of signings ---------------------------------------------------
+//@ spec signingAt(s Store, id Int) types.Signing = dec(types.Signing, s[types.SigningStoreKey(id)])
+//@ spec attemptAt(s Store, id Int, n Int) types.SigningAttempt = dec(types.SigningAttempt, s[types.SigningAttemptStoreKey(id, n)])
+//@ spec psigCount(s Store, id Int, n Int) Int = u64of(s[types.PartialSignatureCountStoreKey(id, n)])
+//@ spec pendingSids(s Store) []tss.SigningID = len(s[types.PendingSigningsStoreKey]) == 0 ? zero("[]tss.SigningID") : dec(types.PendingProcessSignings, s[types.PendingSigningsStoreKey]).SigningIDs
+// a signing is ready for aggregation: it exists and every member assigned in its current attempt has
+// submitted (interim data of that attempt is still in the store)
+//@ spec readySigning(s Store, id Int) Bool = has(s, types.SigningStoreKey(id)) && signingAt(s, id).ID == id
+//@      && has(s, types.SigningAttemptStoreKey(id, signingAt(s, id).CurrentAttempt))
+//@      && psigCount(s, id, signingAt(s, id).CurrentAttempt) == len(attemptAt(s, id, signingAt(s, id).CurrentAttempt).AssignedMembers)
+// store invariant of the pending list: duplicate-free, every entry ready
+//@ spec wfPending(s Store) Bool = (forall i :: 0 <= i && i < len(pendingSids(s)) ==> readySigning(s, pendingSids(s)[i]))
+//@      && (forall i, j :: 0 <= i && i < j && j < len(pendingSids(s)) ==> pendingSids(s)[i] != pendingSids(s)[j])
+
+// Aggregation is to be run on a signing whose current attempt is complete and still has its interim
+// data; it touches only that signing's record (plus the owner's callback) and nothing on failure.
+//@ func (k Keeper) AggregatePartialSignatures
+//@ trusted
+//@ modifies Store_tss, Other, Bank
+//@ requires readySigning(Store_tss, signingID)
+//@ ensures  forall q Bz :: q != types.SigningStoreKey(signingID) ==> Store_tss[q] == old(Store_tss)[q]
+//@ ensures  err != nil ==> Store_tss == old(Store_tss) && Other == old(Other) && Bank == old(Bank)
+//@ ensures  err == nil ==> signingAt(Store_tss, signingID).Status == types.SIGNING_STATUS_SUCCESS
+
+//@ func (k Keeper) HandleExpiredSignings
+//@ trusted
+//@ modifies Store_tss, Other, Bank
+//@ ensures  Store_tss[types.PendingSigningsStoreKey] == old(Store_tss)[types.PendingSigningsStoreKey]
+
+// A new signing round may leave partial writes in its context when it fails, so it must be run in an
+// isolated cache context (one with no other uncommitted writes) that the caller discards on error.
+//@ func (k Keeper) InitiateNewSigningRound
+//@ trusted
+//@ modifies Store_tss
+//@ requires isolated(ctx)
+//@ ensures  Store_tss[types.PendingSigningsStoreKey] == old(Store_tss)[types.PendingSigningsStoreKey]
+
+//@ func (k Keeper) HandleFailedSigning
+//@ trusted
+//@ modifies Store_tss, Other, Bank
+//@ ensures  Store_tss[types.PendingSigningsStoreKey] == old(Store_tss)[types.PendingSigningsStoreKey]
+
+// End block: every signing in the pending list is aggregated while its interim data is still present
+// (i.e. before expiry handling), the list is emptied, and each retry runs in its own isolated cache context.
+//@ func (k Keeper) HandleSigningEndBlock
+//@ modifies Store_tss, Other, Bank
+//@ requires wfPending(Store_tss)
+//@ ensures  len(pendingSids(Store_tss)) == 0
+//@ loop 0: invariant forall j :: #i <= j && j < len(sids) ==> readySigning(Store_tss, sids[j])
+//@ loop 0: invariant forall a, b :: 0 <= a && a < b && b < len(sids) ==> sids[a] != sids[b]
+//@ loop 1: invariant len(pendingSids(Store_tss)) == 0
